@@ -269,6 +269,19 @@ Theorem c10_block_assign_precedence_partial : forall (D : Type) (L : layers D) (
 Proof. exact @block_assign_precedence_partial. Qed.
 Print Assumptions c10_block_assign_precedence_partial.
 
+(** A third level of isolation (render in render in render): still only the
+    innermost tag's arguments, the page's render arguments / matter / globals
+    and the built-ins — every copy chains the ROOT context's globals. *)
+Theorem c10_copy3_lookup : forall (D : Type) (L : layers D) ns1 b1 ns2 b2 ns3 k,
+  NoDup (keys (w_tg (l_world L))) ->
+  st_lookup (ctx_copy (st_push (ctx_copy (st_push (ctx_copy (build L) ns1) b1) ns2) b2) ns3) k =
+  first_some [assoc k ns3;
+              assoc k (w_args (l_world L)); assoc k (w_matter (l_world L));
+              assoc k (w_tg (l_world L)); assoc k (w_eg (l_world L));
+              builtin_get k].
+Proof. exact @copy3_lookup. Qed.
+Print Assumptions c10_copy3_lookup.
+
 (** data_unchanged.  For ANY sequence of chain operations — raw pushes and
     pops included — from the construction over ANY caller data, completed or
     aborted: the caller's four mappings are what they were.  In this model a
